@@ -162,6 +162,74 @@ def run(ctx):
         ctx.count("undefined-slices:%d" % len(holes))
         ctx.case(("gevp", N, T, t0, tuple(descr["energies"])), nontrivial=True, sample=descr if len(ctx.samples) < 2 else None)
 
+    # ------------------------------------------------------------------ level crossings: forward + backward propagating states
+    # G(t) = sum_n z_n z_n^T f_n(t), f_n(t) = exp(-E_n t) + b_n exp(-E_n (T - t)): the dual vectors are time independent, the ORDER of the
+    # eigenvalues f_n(t)/f_n(t0) changes at late times.  sort="Eigenvalue" relabels there, sort="Eigenvector" must keep following the state.
+    made = 0
+    for i in range(400):
+        if made >= (4 if quick else 40):
+            break
+        N = rng.choice([2, 3])
+        T = rng.randint(14, 20)
+        t0 = rng.randint(1, 3)
+        Ef = np.array(sorted(rng.uniform(0.15, 1.2) for _ in range(N)))
+        back = np.array([rng.choice([0.0, 0.02, 0.3, 1.0]) for _ in range(N)])
+        f = lambda t: np.exp(-Ef * t) + back * np.exp(-Ef * (T - t))
+        lam = lambda t: f(t) / f(t0)
+        ts = t0 + 1
+        order = {t: list(np.argsort(-lam(t))) for t in range(t0 + 1, T)}
+        if any(np.min(np.abs(np.diff(np.sort(lam(t))))) / np.max(lam(t)) < 2e-2 for t in range(t0 + 1, T)):
+            continue
+        if not any(order[t] != order[ts] for t in range(t0 + 1, T)):
+            continue
+        if np.min(lam(T - 1)) / np.max(lam(T - 1)) < 1e-5:
+            continue
+        Z = np.eye(N) + 0.35 * np.array([[rng.uniform(-1, 1) for _ in range(N)] for _ in range(N)])
+        if abs(np.linalg.det(Z)) < 0.3:
+            continue
+        G = [(Z * f(t)) @ Z.T for t in range(T)]
+        G = [0.5 * (g + g.T) for g in G]
+        content = []
+        for t in range(T):
+            m = np.empty((N, N), dtype=object)
+            for a_ in range(N):
+                for b_ in range(a_, N):
+                    o = pe.Obs([np.array([0.01 * abs(G[t][a_, b_]) * np.sin(1.7 * k * (a_ * N + b_ + 1) + 0.3 * t) for k in range(30)])], ["gx%d" % i])
+                    m[a_, b_] = o - o.value + G[t][a_, b_]
+                    m[b_, a_] = m[a_, b_]
+            content.append(m)
+        zs = [list(Z[:, n]) for n in range(N)]
+        eqs, orders, par, dual, close = [], [], [], [], []
+        try:
+            with warnings.catch_warnings():
+                warnings.simplefilter("ignore")
+                C = pe.Corr(content)
+                for method in ("eigh", "cholesky"):
+                    v_val = C.GEVP(t0, sort="Eigenvalue", method=method)
+                    v_vec = C.GEVP(t0, ts=ts, sort="Eigenvector", method=method)
+                    for t in range(t0 + 1, T):
+                        for s in range(N):
+                            eqs.append("(%s, %s, %s)" % (mat_t(G[t]), mat_t(G[t0]), vec_t(v_val[s][t])))
+                            eqs.append("(%s, %s, %s)" % (mat_t(G[t]), mat_t(G[t0]), vec_t(v_vec[s][t])))
+                            dual.append("(%s, %d%%nat, %s)" % (mat_t(zs), order[t][s], vec_t(v_val[s][t])))       # relabelled at the crossing
+                            dual.append("(%s, %d%%nat, %s)" % (mat_t(zs), order[ts][s], vec_t(v_vec[s][t])))     # follows the state
+                        orders.append("[" + "; ".join("(%s, %s, %s)" % (mat_t(G[t]), mat_t(G[t0]), vec_t(v_val[s][t])) for s in range(N)) + "]")
+                    for s in range(N):
+                        ev = C.Eigenvalue(t0, ts=ts, state=s, sort="Eigenvector", method=method)
+                        n_phys = order[ts][s]
+                        for t in range(t0 + 1, T):
+                            close.append("(%s, %s, %s)" % (qlit(float(ev.content[t][0].value)), qlit(float(lam(t)[n_phys])), qlit(2.0 ** -16 * float(lam(t)[n_phys]))))
+        except Exception as e:
+            ctx.skip("gevp (crossing) not computed: %s: %s" % (type(e).__name__, str(e)[:70]))
+            continue
+        made += 1
+        term = "(mkGCase (1 # 2 ^ 22) (1 # 2 ^ 14) [%s] [%s] [%s] [%s] [] [%s])" % ("; ".join(eqs), "; ".join(orders), "; ".join(par), "; ".join(dual), "; ".join(close))
+        crossed = [t for t in range(t0 + 1, T) if order[t] != order[ts]]
+        descr = {"kind": "gevp-crossing", "N": N, "T": T, "t0": t0, "ts": ts, "energies": [float(e) for e in Ef], "backward": [float(b) for b in back], "order_differs_at": crossed}
+        cases.append({"term": term, "descr": descr, "key": "gevp-crossing:N%d" % N, "replay": descr})
+        ctx.count("crossing:N%d" % N)
+        ctx.case(("gevp-crossing", N, T, t0, tuple(descr["energies"])), nontrivial=True, sample=descr if len(ctx.samples) < 3 else None)
+
     # ------------------------------------------------------------------ matrix pencil on exact multi-exponential correlators
     import pyerrors.mpm as mpm
     for i in range(6 if quick else 60):
@@ -193,7 +261,7 @@ def run(ctx):
         ctx.count("mpm:k%d" % k)
         ctx.case(("mpm", k, T, tuple(descr["energies"])), nontrivial=True, sample=descr if len(ctx.samples) < 3 else None)
 
-    bads = common.judge_cases(ctx, "C16", HDR, "gcase", [c["term"] for c in cases], VERDICTS, shard=2)
+    bads = common.judge_cases(ctx, "C16", HDR, "gcase", [c["term"] for c in cases], VERDICTS, shard=1)
     failing = {}
     for v, lst in zip(VERDICTS, bads):
         for k in lst:
